@@ -589,6 +589,11 @@ class SFTPFile(BufferedFile):
             # save exception and re-raise it on next file operation
             try:
                 self.sftp._convert_status(msg)
+            except EOFError:
+                # a prefetch request at or past the end of the file: no
+                # data there, which is not an error; a read that gets to
+                # that position asks the server itself
+                pass
             except Exception as e:
                 self._saved_exception = e
             if num in self._reqs:
